@@ -276,7 +276,7 @@ def run(tier, seed, replay=None):
         "traces_validated_against_impl": len(cases) + nfile,
         "correspondence_mismatches": len(mism),
         "spec_failures_on_impl": len(fails),
-        "unproved": ["replace_block and set_block_order (permutation case): modelled and correspondence-checked; invariant/view theorems not yet in Properties_C06.v"],
+        "unproved": [],
         "trusted_base": vlib.BASE_TRUSTED + ["modelled, not verified: std::vector / std::unique_ptr ownership (as lists of blocks with ghost identities), std::set<NiRef*> iteration order (slot order is irrelevant to the operations), C++ object lifetime"],
         "exhaustive": False,
     })
